@@ -17,6 +17,8 @@
 (*   audit  {rm, final, usage, gor} Stat() of resource manager rm read at a *)
 (*                                  quiescent point (+ goroutine census)    *)
 (*   swarm_closed {rm, conns, listeners}   Swarm/Host.Close returned        *)
+(*   residue {rm, conns, holepunch, listeners, endpoints}  a transport's    *)
+(*                                  own bookkeeping at a quiescent point    *)
 (* The statement's clauses are the guards of Audit and SwarmClosed: usage  *)
 (* is bounded by the live and pending holders (so it returns to its former *)
 (* value when an attempt ends), ended attempts have had their raw          *)
@@ -51,7 +53,7 @@ Is(name) == More /\ ~skip /\ Cur.ev = name
 
 \* events that carry no obligation (what was injected, progress markers)
 Info == {"fault", "pingpong", "lclose_call", "lclose_ret", "conn_close_race", "raw_returned", "note", "refused"}
-Known == Info \cup {"reset", "begin", "live", "end", "raw_open", "raw_close", "audit", "swarm_closed"}
+Known == Info \cup {"reset", "begin", "live", "end", "raw_open", "raw_close", "audit", "swarm_closed", "residue"}
 
 TraceInit == /\ l = 1 /\ obj = <<>> /\ raw = <<>> /\ closedRM = {} /\ tname = "" /\ skip = FALSE /\ bad = <<>>
              /\ TLCSet(1, 1) /\ TLCSet(2, <<>>)
@@ -108,8 +110,8 @@ FdOf(S) == N({o \in S : obj[o].fd})
 (***************************************************************************)
 (* The audit.  Usage in the system scope lies between what the live        *)
 (* holders account for and that plus the attempts still in flight; the     *)
-(* transient scope holds at most the in-flight connections (a connection   *)
-(* leaves it when its peer is set, before it is handed out) and the        *)
+(* transient scope holds at most the connections whose peer is not set yet *)
+(* (in flight, or handed over by a demultiplexing listener) and the        *)
 (* streams; with no holder at all every scope is zero.  A final audit is   *)
 (* taken when nothing is in flight any more: every ended attempt's raw     *)
 (* connection has been closed by the code and no goroutine started for an  *)
@@ -128,7 +130,8 @@ AuditOK ==
      /\ Between(Cur.sIn, N(LS("in")), N(LS("in")) + N(PS("in")))
      /\ Between(Cur.sOut, N(LS("out")), N(LS("out")) + N(PS("out")))
      /\ Between(Cur.fd, FdOf(conns), FdOf(conns) + FdOf(pconns))
-     /\ Cur.tcIn <= N(PC("in")) /\ Cur.tcOut <= N(PC("out")) /\ Cur.tfd <= FdOf(pconns)
+     /\ Cur.tcIn <= N(PC("in")) + N(LC("in")) /\ Cur.tcOut <= N(PC("out")) + N(LC("out"))
+     /\ Cur.tfd <= FdOf(pconns) + FdOf(conns)
      /\ Cur.tsIn <= N(LS("in")) + N(PS("in")) /\ Cur.tsOut <= N(LS("out")) + N(PS("out"))
      /\ (Holders(r) = {} => Cur.mem = 0 /\ Cur.tmem = 0 /\ Cur.other = 0)
      /\ (LS("in") \cup LS("out") \cup PS("in") \cup PS("out") = {} => Cur.tmem = 0)
@@ -140,6 +143,18 @@ AuditOK ==
 TrAudit == /\ Is("audit")
            /\ IF AuditOK THEN Accept /\ Keep ELSE Reject
 
+\* A transport's own bookkeeping read at a quiescent point (QUIC: conns / holePunching / listeners maps, UDP
+\* endpoints still open; tcpreuse: shared listeners): no hole-punch entry survives its call, no endpoint
+\* survives the close of its manager, and with no holder left nothing at all is registered
+ResidueOK ==
+  LET r == Cur.rm
+      cs == {o \in DOMAIN obj : obj[o].rm = r /\ obj[o].kind = "conn" /\ obj[o].st \in {"pending", "live"}}
+  IN /\ Cur.holepunch = 0 /\ Cur.endpoints = 0
+     /\ Cur.conns <= N(cs)
+     /\ (Holders(r) = {} => Cur.listeners = 0)
+TrResidue == /\ Is("residue")
+             /\ IF ResidueOK THEN Accept /\ Keep ELSE Reject
+
 \* Swarm.Close returned: no connection, no listener; everything that was charged to it is gone
 TrSwarmClosed ==
   /\ Is("swarm_closed")
@@ -150,7 +165,7 @@ TrSwarmClosed ==
        ELSE Reject
 
 TraceNext == \/ TrReset \/ TrSkip \/ TrInfo \/ TrUnknown \/ TrBegin \/ TrLive \/ TrEnd \/ TrRawOpen \/ TrRawClose
-             \/ TrAudit \/ TrSwarmClosed
+             \/ TrAudit \/ TrSwarmClosed \/ TrResidue
 
 TraceSpec == TraceInit /\ [][TraceNext]_vars
 
